@@ -197,3 +197,10 @@ func VerifDetachedRS(name string) *ResourceSubscription {
 	e := &EventSubscription{ResourceName: name, cache: c, count: 1 << 30}
 	return newResourceSubscription(e, "")
 }
+
+// verifCount reads the use count of an entry under its lock.
+func verifCount(e *EventSubscription) int64 {
+	e.mu.Lock()
+	defer e.mu.Unlock()
+	return e.count
+}
